@@ -412,10 +412,15 @@ def r4_caches_and_permutations(ctx):
 from ..through_time import make_rule as _mk_tt
 _through_time = _mk_tt("C14")
 
+def _fasta_byte_arithmetic(ctx):
+    from .c17 import r2_byte_arithmetic
+    r2_byte_arithmetic(ctx)    # sequence under intervals is read from the indexed FASTA with this arithmetic
+
 RULES = [
     ("C14-R1", r1_complement),
     ("C14-R2", r2_genetic_code),
     ("C14-R3", r3_strand_selectors),
     ("C14-R4", r4_caches_and_permutations),
     ("C14-T1", _through_time),
+    ("C14-R5", _fasta_byte_arithmetic),
 ]
